@@ -8,7 +8,8 @@ from gen import members, sweep
 
 RULE = ("equivalence: ALL ordered pairs of groups for n = 2 (225) and n = 3 (18 225), each side in a drawn generator basis with "
         "drawn signs and format; Hypothesis pairs for n = 4..6 with a forced share of equal-group pairs and of pairs differing "
-        "in exactly one generator. expansion / entanglement: every group for n <= 4 (in a drawn basis) x every qubit, constructed "
+        "in exactly one generator; pairs on DIFFERENT numbers of qubits (A vs A(x)T, T(x)A, unrelated; 40 / 2000 per size pair) "
+        "must never be reported equivalent (False or a refusal are both accepted). expansion / entanglement: every group for n <= 4 (in a drawn basis) x every qubit, constructed "
         "members of every class for n = 5, 6. A case is one predicate evaluation set (one pair, or one stabilizer with all its "
         "qubits). Non-trivial = both stabilizers in non-canonical (non-RREF) bases; for entanglement a qubit on which only some "
         "generators act and with a single Pauli type. Distinct by the generator lists. Oracle: RREF canonical form of the "
@@ -81,7 +82,28 @@ def check_single(case):
     return fails
 
 
+def check_mixed(case):
+    """stabilizers on DIFFERENT numbers of qubits never generate the same group: the test must not say True (False, or a refusal by
+    exception, are both fine)"""
+    na, nb = case["na"], case["nb"]
+    out = []
+    sa, _ = mk(na, case["a"], case.get("fmt_a", "strings+sign"))
+    sb, _ = mk(nb, case["b"], case.get("fmt_b", "matrices+phases"))
+    for lab, x, y in (("small.is_equivalent(large)", sa, sb), ("large.is_equivalent(small)", sb, sa)):
+        try:
+            got = bool(x.is_equivalent_mod_phase(y))
+        except Exception:  # noqa: BLE001
+            got = None
+        if got is True:
+            out.append(("equiv/false-positive-mixed-size", f"is_equivalent_mod_phase = True ({lab}) for {case['a']} ({na} qubits) vs {case['b']} ({nb} qubits), "
+                        f"relation {case.get('relation')}", {"observed": True, "expected": False}))
+            break
+    return out
+
+
 def check_case(case):
+    if case["kind"] == "equiv-mixed":
+        return check_mixed(case)
     return check_equiv(case) if case["kind"] == "equiv" else check_single(case)
 
 
@@ -90,6 +112,8 @@ def noncanonical(gens, n):
 
 
 def classify(case):
+    if case["kind"] == "equiv-mixed":
+        return ("m", tuple(case["a"]), tuple(case["b"])), {"kind": "equiv-mixed", "mixed": f"{case['na']}-vs-{case['nb']}:{case.get('relation')}"}
     n = case["n"]
     if case["kind"] == "equiv":
         ga = [pauli.parse(s)[:3] for s in case["a"]]
@@ -155,6 +179,38 @@ def shard(arg):
                 rep.count("single_n", f"{n}(named)")
                 for key, msg, extra in check_single(case):
                     rep.fail(key, case, msg + f" [named state {label}]", **extra)
+    elif kind == "mixed":
+        # a stabilizer on na qubits against one on nb > na qubits that contains it on the leading / trailing qubits (A x T, T x A) or is unrelated
+        _, na, nb, count, seed = arg
+        ra, rt, rb = members.orbit_reps(na), (members.orbit_reps(nb - na) if nb - na >= 2 else None), members.orbit_reps(nb)
+        for i in range(count):
+            rng = fw.rng_for("c15x", seed, na, nb, i)
+            ga, _ = members.member(na, rng.choice(ra), rng, mix=[True, "light", False][i % 3])
+            if rt is not None:
+                gt, _ = members.member(nb - na, rng.choice(rt), rng)
+            else:
+                gt = [(rng.randrange(2), *rng.choice([(1, 0), (0, 1), (1, 1)]))]
+            rel = ["A(x)T", "T(x)A", "unrelated", "A(x)T"][i % 4]
+            if rel == "A(x)T":
+                gb = [(s, x, z) for (s, x, z) in ga] + [(s, x << na, z << na) for (s, x, z) in gt]
+            elif rel == "T(x)A":
+                k = nb - na
+                gb = [(s, x, z) for (s, x, z) in gt] + [(s, x << k, z << k) for (s, x, z) in ga]
+            else:
+                gb, _ = members.member(nb, rng.choice(rb), rng)
+            style = i % 5
+            if style in (1, 2):
+                gb = members.random_basis_change(gb, rng)
+            elif style == 3:
+                rng.shuffle(gb)
+            gb = members.apply_signs(gb, rng.randrange(1 << nb))
+            case = {"kind": "equiv-mixed", "na": na, "nb": nb, "a": sweep.strings(ga, na), "b": sweep.strings(gb, nb), "relation": rel,
+                    "fmt_a": rng.choice(fmts), "fmt_b": rng.choice(fmts)}
+            nt, tabs = classify(case)
+            rep.case(nt, case if i == 5 else None)
+            rep.count("mixed", tabs["mixed"])
+            for key, msg, extra in check_mixed(case):
+                rep.fail(key, case, msg, **extra)
     elif kind == "members":
         _, n, orbits, k, seed = arg
         for gens, rng, meta in sweep.member_subjects(n, orbits, k, seed, "c15m"):
@@ -218,6 +274,9 @@ def run(ctx):
             args.append(("members", n, chunk, 4 if q else 100, ctx.seed))
     for n in range(2, 7):
         args.append(("named", n, 5 if q else 40, ctx.seed))
+    for na in range(2, 6):
+        for nb in range(na + 1, 7):
+            args.append(("mixed", na, nb, 40 if q else 2000, ctx.seed))
     for i in range(16):
         args.append(("hyp", ctx.seed * 1000 + i, 80 if q else 30000, ctx.deadline))
     rep = fw.run_shards(ctx, "props.c15", "shard", args)
